@@ -1029,7 +1029,7 @@ func main() {
 	absOut, _ := filepath.Abs(a.Out)
 	c.cases = vh.NewCases(a, "From Coq Require Import List String ZArith.\nFrom Verif Require Import C22.Model.\nAdd LoadPath \""+absOut+"\" as Gen.\nFrom Gen Require Import GenC22a_Table.\nImport ListNotations.\nOpen Scope string_scope.",
 		"case", "mismatches_in gen_table", 250)
-	wd := vh.NewWatchdog(rep, 60*time.Second)
+	wd := vh.NewWatchdog(rep, 180*time.Second)
 
 	verifDir := os.Getenv("VERIF_DIR")
 	if verifDir == "" {
